@@ -176,9 +176,11 @@ class World:
 
             @classmethod
             def _apply_changes(cls, changes):
+                """Observe, and rotate each file's change list for the alternative-fix choice; the
+                whole dict then goes to the real method in ONE call, exactly as main() would do it.
+                The crash between two file rewrites is injected by the shadowed `open` below."""
                 alt = world.sim.get("alt", 0)
-                crash_after = world.sim.get("crash_after")
-                done = 0
+                rotated = type(changes)() if not hasattr(changes, "default_factory") else type(changes)(changes.default_factory)
                 for filename in list(changes):
                     changeset = list(changes[filename])
                     applicable = [i for i, c in enumerate(changeset) if c.lines_to_add is not None]
@@ -192,12 +194,25 @@ class World:
                         c = changeset[0]
                         rec["first"] = {"del": sorted(c.linenos_to_delete), "add": c.lines_to_add, "error": c.error_str}
                     world.sim["applied"].append(rec)
-                    if crash_after is not None and done >= crash_after:
-                        world.sim["crash_fired"] = True
-                        raise SimCrash()
-                    super()._apply_changes({filename: changeset})
-                    done += 1
+                    rotated[filename] = changeset
+                world.sim["writes"] = 0
+                super()._apply_changes(rotated)
 
+        import builtins
+        from pyanalyze import node_visitor as nv
+
+        def sim_open(file, mode="r", *args, **kwargs):
+            # the only `open` pyanalyze.node_visitor sees: counts the files opened for writing
+            # during _apply_changes and kills the lifetime before the (k+1)-th is truncated
+            if "w" in mode and isinstance(file, str) and file.startswith(world.root):
+                crash_after = world.sim.get("crash_after")
+                if crash_after is not None and world.sim.get("writes", 0) >= crash_after:
+                    world.sim["crash_fired"] = True
+                    raise SimCrash()
+                world.sim["writes"] = world.sim.get("writes", 0) + 1
+            return builtins.open(file, mode, *args, **kwargs)
+
+        nv.open = sim_open
         return SimVisitor
 
     def render_failures(self, failures):
